@@ -129,3 +129,6 @@ def run(ctx):
            not (uses_number_join and len(nongenesis) >= 2), join_via_block_number=uses_number_join, block_number_writers=nongenesis,
            detail='TxHash -> (number, index, tx) is joined with BlockNumber(number) -> hash; add_fetched_header / add_fetched_tx / filter_block all '
                   'rewrite BlockNumber(number) and rollback_to_block leaves TxHash records behind')
+    # reviewed reference of the storage functions' durable writes (engine/census.py)
+    from rules import census_fns
+    census_fns.run(ctx, 'C16')
